@@ -455,6 +455,8 @@ SPECS['C13'] = {
     'selftests': ['venv:vf.stubs.selftest:selftest_npvalues'],
     'obligations': _pair('c13', 'spacing', (300, 600), '6 integer dtypes x 1..3 rows x all values of the dtype x both tolerance outcomes',
                          ['FrameItem._compute_spacing_and_direction'], replay=D + 'replay_spacing', validate=D + 'replay_spacing', shards=(6, 6))
+    + _pair('c13', 'spacing_tol', (400, 1500), 'the near-uniform tolerance (1 - d/median)**2 < 0.001 in exact rational arithmetic (squares kept lazy: |q| against an enclosure of sqrt(0.001)): 6 integer dtypes x 3..4 rows x all values of the dtype; nothing asserted for |1 - d/median| in [0.031, 0.032]',
+            ['FrameItem._compute_spacing_and_direction'], replay=D + 'replay_spacing', shards=(6, 6))
     + [dict(fn=H + 'c13.wit_spacing_unsigned_decreasing', kind='witness', timeout=(60, 60), validate=D + 'replay_spacing')]
     + _pair('c13', 'params', (300, 600), 'index type given or not x user-supplied min/max/spacing/direction or not x uniform or not x 1..4 rows x mode',
             ['FrameItem._setup_frame_params_from_data'], replay=D + 'replay_params', validate=D + 'replay_params')
@@ -469,6 +471,8 @@ _rename = _pair('c14', 'rename', (120, 300), 'new origin<2**30, rename or not, n
                 replay=ST + 'replay_rename', validate=ST + 'replay_rename')
 _cachekey = _pair('c14', 'cache_key', (300, 600), 'every memoised function found by introspection x 7 codes x 13x13 values (1, 1.0, True, ...): keys equal => uncached results equal',
                   ['write_struct', 'ushort'], replay=ST + 'replay_cache_key', validate=ST + 'replay_cache_key', shards=(4, 4))
+_enthist = _pair('c14', 'entry_history', (120, 300), 'write_struct with the real lru caches: 10 codes x every ordered pair of equal (==) values out of 22 (0.0/-0.0, 1/1.0/True, ...): b after a == b as in a fresh process',
+                 ['write_struct'], replay=PLAIN)
 _idem = _pair('c14', 'idempotent', (400, 1500), 'every attribute signature (thorough: every site) x multiplicity x small values: encode twice', ['EFLRItem.make_item_body_bytes',
               'ParameterItem._run_checks_and_set_defaults', 'ComputationItem._run_checks_and_set_defaults', 'ChannelItem._run_checks_and_set_defaults',
               'DimensionedItem._check_or_set_value_dimensionality'], shards=(16, 16)) + [
@@ -492,7 +496,7 @@ SPECS['C14'] = {
                 'clock/RNG use, derived attributes), enumerated by introspection / listed in DESIGN appendix B',
                 'F9 region (derived frame/channel attributes persist across writes): known finding'],
     'selftests': NP_SELF,
-    'obligations': _rename + _cachekey + _idem + _datadict + _find('C17', 'ob_context') + _find('C02', 'ob_lr_type')
+    'obligations': _rename + _cachekey + _enthist + _idem + _datadict + _find('C17', 'ob_context') + _find('C02', 'ob_lr_type')
     + _find('C09', 'ob_origin_params') + _find('C13', 'ob_second_setup') + _find('C13', 'kf_second_setup'),
 }
 SPECS['C20'] = {
